@@ -10,3 +10,50 @@ Theorem C16_no_options_is_default : prof_none = {| p_cfg := default_cfg; p_remov
   p_removeFragment := false; p_sortQuery := NoSort; p_repeated := false; p_defaultScheme := [] |} /\ prof_WhatWg = prof_none.
 Proof. split; [exact prof_none_is_default | exact prof_WhatWg_is_none]. Qed.
 Print Assumptions C16_no_options_is_default.
+
+(* ---------- canonicalizer steps (Proofs/CanonBasics.v) ---------- *)
+From Verif Require Import Model.Url Model.Machine Model.Api Model.Canon Proofs.CanonBasics.
+
+(* a profile built without options behaves exactly like the default parser: Parse ... *)
+Theorem C16_no_options_parse : forall idna_raw x,
+  ProfileParse idna_raw prof_none x =
+  match Parse idna_raw default_cfg x with PUrl u => CUrl u | PErr e => CErr e | _ => CPanic end.
+Proof.
+  intros idna_raw x. destruct prof_none_plain as (Hp & Hd & Hc).
+  rewrite (ProfileParse_plain idna_raw prof_none x Hp Hd). reflexivity.
+Qed.
+Print Assumptions C16_no_options_parse.
+
+(* ... and ParseRef *)
+Theorem C16_no_options_parseref : forall idna_raw b x,
+  ProfileParseRef idna_raw prof_none b x =
+  match Parse idna_raw default_cfg b with
+  | PUrl bu => match UrlParse idna_raw default_cfg bu x with PUrl u => CUrl u | PErr e => CErr e | _ => CPanic end
+  | PErr e => CErr e
+  | _ => CPanic end.
+Proof.
+  intros idna_raw b x. destruct prof_none_plain as (Hp & Hd & Hc).
+  rewrite (ProfileParseRef_plain idna_raw prof_none b x Hp Hd). reflexivity.
+Qed.
+Print Assumptions C16_no_options_parseref.
+
+(* remove-port / remove-user-info / remove-fragment are the standard's setters with the empty string applied to the parser's result *)
+Theorem C16_removals_are_setters : forall idna_raw p u, p_repeated p = false -> p_sortQuery p = NoSort ->
+  Canonicalize idna_raw p u =
+  bind (if p_removePort p then SetPort idna_raw (p_cfg p) u [] else Some u) (fun u =>
+  bind (if p_removeUserInfo p then bind (SetUsername (p_cfg p) u []) (fun u => SetPassword (p_cfg p) u []) else Some u) (fun u =>
+  if p_removeFragment p then SetHash idna_raw (p_cfg p) u [] else Some u)).
+Proof. exact Canonicalize_removals. Qed.
+Print Assumptions C16_removals_are_setters.
+
+(* default-scheme: only an input that fails for lack of a scheme is retried as scheme://input *)
+Theorem C16_default_scheme : forall idna_raw p x,
+  parse_retry idna_raw p x =
+  match Parse idna_raw (p_cfg p) x with
+  | PErr e => match e_type e with
+              | MissingSchemeNonRelativeURL =>
+                  if is_nil (p_defaultScheme p) then PErr e else Parse idna_raw (p_cfg p) (p_defaultScheme p ++ [58;47;47] ++ x)
+              | _ => PErr e end
+  | other => other end.
+Proof. exact parse_retry_spec. Qed.
+Print Assumptions C16_default_scheme.
